@@ -69,6 +69,19 @@ CLAIMED = {
          "Through the core space with the full input alphabets: every primitive kind, slice, pointer and struct context (top level, struct field, slice element, behind pointer, struct in slice, pointer to struct, nested struct), any two units jointly, Required x Default{none, passing, failing} x NotNil x {valid, missing key, nil, empty, spaces, tab/newline, NBSP, alternative representation, 0/false/zero time/\"0\", failing, uncoercible} in Parse and {valid, zero, failing, nil/empty/one-element slice, nil pointer} in Validate. Checked: exactly the required/not_nil issues the table prescribes at the right paths; recording tests ran exactly where a value is present or defaulted and not on skipped nodes; skipped nodes' destinations and fields not named by the schema are unchanged; defaults are written. Typed map inputs (map[string]string/int/float64/bool) with missing keys are checked separately.",
          "Catch excluded (C05). Typed nil pointers as inputs are outside the table.",
          "DESIGN.md section 4 C04"),
+
+ "C10": ("stateless exhaustive exploration of record cases x struct-tag assignments x six front ends x failing-node sets x visit orders on the real code; issue-map invariants and paths against the documented key chain; known findings matched by an as-is model with quirk switches",
+         "A record schema with nested structs and a list (depth 2, thorough 3) is parsed on the real code for every struct-tag assignment (per field none / zog / source / both / source with [] suffix; any two fields deviating, and the four uniform assignments), through every front end (Go map, zjson, zhttp JSON, form, query, env; Validate for Go values), with any one (two for uniform tags) unit ranging over Required x tests x {valid, missing, nil, empty, failing, uncoercible}, under identity and reversed field order at every struct visit. Checked on every result: each issue exactly once under the key equal to its Path ($root for empty), $first exactly one and equal to the first issue recorded under the chosen order, no empty lists, Path == documented key chain at every depth, SanitizeMap/SanitizeList mirror keys, order and messages; IssuePath overrides at root / field / required / element tests.",
+         "Known findings D18 (nested providers drop the source tag; flat sources do not resolve nested structs) and D24 (JSON {} loses the json tag) are matched by the model, not by pattern: a case is known only if the reference model with those quirk switches predicts the result exactly.",
+         "DESIGN.md section 4 C10"),
+ "C13": ("stateless exhaustive exploration of fully populated values; relational oracle between two runs of the real code (Validate in place vs Parse of the value rendered as a map)",
+         "For every core skeleton, any two units range over configuration x fully populated value (each leaf passing / failing t1 / failing t2 / failing both, never zero; slices of 1-2 elements; pointers set). The value is validated in place and, rendered as the map it would be decoded from, parsed into a fresh destination under the same field visit orders (all permutations); both must report the same (path, code, type, message) multiset and leave equal values.",
+         "No Preprocess, no PostTransforms. toMap keys follow zog tag -> schema key.",
+         "DESIGN.md section 4 C13"),
+ "C14": ("stateless exhaustive exploration; every abstract record rendered through all six front ends and parsed on the real code in one execution; differential against the Go-map rendering; known findings explained by the as-is model",
+         "Same record / tag / focus enumeration as C10. In each execution the record is rendered as a Go map, JSON text (zjson), zhttp JSON body, form body, query string and environment variables (real http.Request objects, real process environment) and parsed with the same visit orders; each rendering must give the Go-map rendering's issues (paths normalised to field identity) and destination, modulo only the documented differences (tag naming the key, string-typed leaves, env trimming, inexpressible cases skipped).",
+         "Known findings D18 / D24 as in C10. Lists of several values are not expressible in env; nil / empty lists not expressible in flat sources.",
+         "DESIGN.md section 4 C14"),
 }
 NOT_YET = "check not built yet in this round (work in progress; see DESIGN.md section 4)"
 def main():
